@@ -108,7 +108,7 @@ func Run(c *hx.Ctx) {
 		if len(serialize(b.msg)) > 260 {
 			continue
 		}
-		doWrite(c, magics[c.Intn(len(magics))], b.msg, b.cmd)
+		doWrite(c, magics[c.Intn(len(magics))], b.msg, b.cmd, b.noAcc)
 	}
 }
 
